@@ -47,8 +47,17 @@ def make_schedules(hists, gname, seed, authors=(1, 2)):
         rnd = random.Random(_h(seed, bid))
         nupd = sum(1 for s in h if s["a"] in ("ins", "del", "set", "rem"))
         steps = list(h)
-        for i in range(1, nupd + 1):
-            steps.append({"a": "dlv", "r": 9, "u": [i]})
+        if gname.startswith("alg") and nupd >= 3 and idx % 2 == 1:
+            # observer 9 receives everything as ONE nested merge: groups with duplicated heads, gaps and fillers in a seeded order
+            ids = list(range(1, nupd + 1))
+            groups = [[ids[0]], [ids[0], ids[-1]]] + [[i] for i in ids[1:-1]]
+            if rnd.random() < 0.5:
+                groups = [[ids[0], ids[1]], [ids[0], ids[-1]]] + [[i] for i in ids[2:-1]] + ([[ids[1]]] if nupd == 3 else [])
+            rnd.shuffle(groups)
+            steps.append({"a": "dlv", "r": 9, "u": [i for g in groups for i in g], "shape": "groups:" + ",".join(str(len(g)) for g in groups), "diff": False})
+        else:
+            for i in range(1, nupd + 1):
+                steps.append({"a": "dlv", "r": 9, "u": [i]})
         # document-free state vector of merged updates (C08)
         steps.append({"a": "svu", "u": list(range(1, nupd + 1))})
         if nupd > 1:
